@@ -1,12 +1,47 @@
 """Registry: per property, the Coq statement files, the correspondence streams and their generators."""
 from .runner import Prop, Stream
-from gen import utf8gen
+from . import judges
+from gen import utf8gen, cborgen, streamgen, treegen, histgen
 
 CAP = 1 << 20
+LDEF = 2048
 PROPS = {}
 
 def reg(p):
     PROPS[p.pid] = p
+
+def not_trivial_load(c, l):
+    return c != "-" and (l.startswith("ok") or l.startswith("err"))
+
+def encdec_cases(ctx):
+    out = []
+    for name, bits in streamgen.ENC_INT.items():
+        for v in streamgen.enc_values(name, bits, ctx):
+            out.append("%s %d" % (name, v))
+    for name in streamgen.ENC_NOARG:
+        out.append("%s 0" % name)
+    out += ["bool 0", "bool 1"]
+    for b in streamgen.float32_patterns(ctx)[:: (5 if ctx.tier == "quick" else 1)]:
+        out.append("single 0x%x" % b)
+    for h in range(0, 65536, 1 if ctx.tier != "quick" else 3):
+        out.append("half 0x%x" % treegen.half_to_f32bits(h))
+    for b in streamgen.float64_patterns(ctx)[:: (5 if ctx.tier == "quick" else 1)]:
+        out.append("double 0x%x" % b)
+    return out
+
+def half_tree_cases(ctx):
+    """every half pattern as an item: serialize must reproduce the two bytes (NaN -> 7e00)"""
+    return ["(f16 %x)" % treegen.half_to_f32bits(h) for h in range(65536)]
+
+LOAD_RULE = ("all byte strings of length 0-2 exhaustively, length 3 over initial-byte class representatives; a grammar-directed "
+             "enumeration (major type x argument width x definite/indefinite x nesting position) with all single-edit neighbours "
+             "(truncate at every offset, overwrite heads by reserved/other initial bytes, insert/delete break, inflate/deflate counts); "
+             "the chunked-string exception family; random trees; declared sizes near the allocator cap and 2^64; "
+             "non-trivial = non-empty input")
+
+load_stream = lambda name="load", flavours=("rel", "dbg"): Stream(
+    name, "load", cborgen.load_cases, args=(LDEF, CAP), flavours=flavours, spec="load_spec",
+    nontrivial=not_trivial_load, rule=LOAD_RULE, timeout=600)
 
 reg(Prop("C16", ["Properties_C16"], [
     Stream("utf8", "utf8", utf8gen.utf8_cases, flavours=("rel", "dbg"), spec="utf8_spec",
@@ -16,3 +51,56 @@ reg(Prop("C16", ["Properties_C16"], [
            nontrivial=lambda c, l: l != "1",
            rule="every (live DFA state, byte) pair of _cbor_unicode_decode; non-trivial = not the reject state"),
 ], level_note="Theorem over all byte strings about the model of unicode.c with the table regenerated from the source; model tied to the compiled code by the utf8/dfa streams"))
+
+reg(Prop("C08", ["Properties_C08"], [
+    Stream("dec1", "dec1", streamgen.dec1_cases, flavours=("rel", "dbg"),
+           nontrivial=lambda c, l: c != "-",
+           rule="every initial byte x every buffer length 0..full+1; 1-byte arguments exhaustive, 2-byte exhaustive for halves / strided for ints, boundary+random 4/8-byte arguments incl. declared string lengths up to 2^64-1; exactly-sized heap blocks; a recording callback table (exactly one callback or none); non-trivial = non-empty buffer"),
+], judge=judges.dec1_judge,
+   level_note="Theorems about the model of streaming.c (dispatch table regenerated from the switch on every run, bridge lemma); model tied to the compiled code by the dec1 stream in release and ASan/UBSan builds"))
+
+reg(Prop("C09", ["Properties_C09"], [
+    Stream("frag", "frag", streamgen.frag_cases, flavours=("rel", "dbg"),
+           nontrivial=lambda c, l: " " in c and not l.startswith("- "),
+           rule="concatenations of enumerated / random items and raw head sequences x every single cut, byte-at-a-time, random cuts; the C client loop of hx calls the real decoder on exactly the buffered bytes; non-trivial = at least one cut and one event"),
+], level_note="Theorem about the client model (PDrive.v) over the decoder model; the C client loop in hx.c is tied by the frag stream"))
+
+reg(Prop("C10", ["Properties_C10"], [
+    Stream("encdec", "encdec", encdec_cases, flavours=("rel", "dbg"),
+           nontrivial=lambda c, l: not l.startswith("0 "),
+           rule="every public encoder x (8/16-bit domains exhaustive or densely strided, every power of two +-1, width boundaries, random 32/64-bit values; all 65,536 half values; float pattern sets); encode then decode the bytes written + one trailing byte; non-trivial = encoder wrote something"),
+    Stream("enc", "enc", streamgen.enc_cases, flavours=("rel",), nontrivial=lambda c, l: not l.startswith("0 "),
+           rule="(encoder, value, buffer size 0..10): return value and the exact bytes stored (two-sentinel image)"),
+], level_note="Theorems about encoder and decoder models; tied by the encdec/enc streams"))
+
+reg(Prop("C07", ["Properties_C07"], [
+    Stream("ser", "ser", treegen.ser_cases, flavours=("rel", "dbg"), nontrivial=lambda c, l: True,
+           rule="trees built through the public API from enumerated + random S-expressions (every builder, width, boundary value, empty / multi-chunk strings, containers with 23/24/255/256 entries); for each: serialized_size, serialize_alloc, serialize for every n in 0..size+2 into an exactly-sized heap block with two sentinels"),
+    Stream("enc", "enc", streamgen.enc_cases, flavours=("rel", "dbg"), nontrivial=lambda c, l: not l.startswith("0 "),
+           rule="(encoder, value, n in 0..10) triples; exact return value and bytes stored"),
+], judge=lambda ctx, s, fl, c, a, b: judges.ser_judge(ctx, s, fl, c, a, b) if s.name == "ser" else ("model expects " + b[:200]),
+   level_note="Theorem about the serializer model vs the RFC encoding spec; tied by ser/enc streams incl. ASan"))
+
+reg(Prop("C20", ["Properties_C20"], [
+    Stream("mem", "mem", streamgen.mem_cases, flavours=("rel", "dbg"), nontrivial=lambda c, l: True,
+           rule="guard functions on a dense boundary grid (2^i +- delta)^2 plus random operands; _cbor_alloc_multiple / _cbor_realloc_multiple request sizes via a recording allocator; growth step of an indefinite array with faked capacities up to 2^64-1"),
+    Stream("load-sizes", "load", lambda ctx: [c for c in cborgen.load_cases(ctx) if len(c) >= 10 and c[:2] in ("5a", "5b", "7a", "7b", "9a", "9b", "ba", "bb", "81")][:4000],
+           args=(LDEF, CAP), flavours=("rel",), spec="load_spec", nontrivial=not_trivial_load,
+           rule="declared counts / lengths near 2^16..2^64 through cbor_load with a size-cap allocator"),
+], judge=lambda ctx, s, fl, c, a, b: judges.mem_judge(ctx, s, fl, c, a, b) if s.name == "mem" else None if False else ("spec expects " + b[:200]),
+   level_note="Theorems for every word width about the guard models; tied by the mem stream"))
+
+reg(Prop("C15", ["Properties_C15"], [
+    Stream("floatdec", "dec1", streamgen.float_dec_cases, flavours=("rel", "dbg"), nontrivial=lambda c, l: True, exhaustive=False,
+           rule="decoder: all 65,536 half patterns (exhaustive), single / double pattern sets (every exponent x boundary mantissas + random); the value is compared as the binary32/64 bits the callback receives (NaN canonical)"),
+    Stream("halfser", "ser", half_tree_cases, flavours=("rel",), nontrivial=lambda c, l: True, exhaustive=True,
+           rule="all 65,536 half values as items: serialization reproduces the original two bytes (NaN -> 7e00)"),
+    Stream("floatenc", "enc", lambda ctx: [c for c in streamgen.enc_cases(ctx) if c.split()[0] in ("half", "single", "double")],
+           flavours=("rel", "dbg"), nontrivial=lambda c, l: True,
+           rule="cbor_encode_half on every exponent class x boundary mantissas (incl. values no half can represent: totality), singles, doubles"),
+], level_note="Flocq theorems about decode_half; sweeps over all half patterns; tied by exhaustive half streams"))
+
+reg(Prop("C02", ["Properties_C02"], [load_stream()],
+         level_note="Theorem: builder machine = recursive-descent spec; byte loop = machine o tokenisation; tied by the load stream (release + ASan/UBSan, input block freed before the tree is read, refcounts checked)"))
+reg(Prop("C05", ["Properties_C05"], [load_stream()],
+         level_note="Same master theorem, error classes and positions included; result struct pre-filled with a sentinel; live-block count after every failure"))
